@@ -674,6 +674,31 @@ def run(tier="quick"):
         chk.rule(rid, txt)
     prog = facts.extract(only=["options.c"])
     u = prog.units["options.c"]
+    # N6 a lookup's "not found" answer survives the trip to its caller: a function that returns a negative constant has a signed
+    # return type at least as wide as int.  Through an unsigned type narrower than int the -1 arrives as 255 / 65535, the
+    # caller's `== -1` / `< 0` test is never true, and the bounds guard of the table accessor turns the value into entry 0
+    chk.rule("N6", "a negative 'not found' value is returned through a signed type no narrower than int")
+    nsent = 0
+    for f_ in u.functions.values():
+        if f_.body is None or not f_.j.get("inmain"):
+            continue
+        for x in walk(f_.body):
+            if x.get("k") == "return" and x.get("val") is not None:
+                v_ = x["val"]
+                while v_ is not None and (v_.get("k") == "paren" or (v_.get("k") == "icast" and v_.get("ck") == "IntegralCast")):
+                    v_ = v_["ch"][0]          # the value as written, before the implicit conversion to the return type
+                cv = X.const_val(v_) if v_ is not None else None
+                if cv is not None and cv < 0:
+                    nsent += 1
+                    rw, rs = f_.j.get("retw"), f_.j.get("rets")
+                    ok6 = not (rw is not None and ((not rs and rw < 32) or (rs and rw < 32 and cv < -(1 << (rw - 1)))))
+                    chk.ob("N6", f_.name, "sentinel-representable:%d" % cv, ok6, loc=f_.loc(x),
+                           detail="%s returns %d through its return type %s (%s-bit %s): the caller receives %s, which no comparison "
+                                  "with %d matches - a missing option is then treated as a table index" % (
+                                      f_.name, cv, f_.j.get("ret"), rw, "signed" if rs else "unsigned",
+                                      (cv & ((1 << rw) - 1)) if rw else "?", cv),
+                           proof="%s is signed and at least int-wide" % f_.j.get("ret"))
+    chk.count("negative_sentinel_returns", nsent, floor=2)
     hb = prog.need("handle_boolean")
     parse = prog.need("spifopt_parse")
     # M1
